@@ -35,6 +35,7 @@ def shards(tier, seed):
                       "stride": 3 if tier == "quick" else 1})
         specs.append({"kind": "expr_layer", "which": "padded", "maxw": 2, "part": i, "parts": NSHARDS,
                       "stride": 4 if tier == "quick" else 1})
+        specs.append({"kind": "expr_layer", "which": "crossing", "maxw": 3 if tier == "quick" else 4, "part": i, "parts": NSHARDS, "stride": 1})
     return specs
 
 
@@ -263,12 +264,30 @@ def padded_operand_exprs(maxw):
                 yield [a], ["shift_left", fa, n]
 
 
+def crossing_cat_exprs(maxw):
+    """Concatenations whose pieces continue each other's bit numbering on *different* signals (a run of
+    consecutive bit indices that crosses from one wire to another), bare and as operands."""
+    from .c01 import shapes_upto
+    A, B = ["sig", 0], ["sig", 1]
+    S = [s for s in shapes_upto(maxw) if s[0] >= 2 and not s[1]]
+    for a in S:
+        for b in S:
+            env = [a, b]
+            for k in range(1, min(a[0], b[0])):
+                for hi in range(k + 1, b[0] + 1):
+                    cont = ["cat", [["slice", A, 0, k, None], ["slice", B, k, hi, None]]]
+                    yield env, cont
+                    yield env, ["inv", cont]
+                    yield env, ["add", cont, ["cat", [["slice", B, 0, k, None], ["slice", A, k, a[0], None]]]]
+                    yield env, ["cat", [["slice", A, 0, k, None], ["slice", B, k, hi, None], ["slice", A, hi, a[0], None]]]
+
+
 def run_expr_layer(spec, out):
     from .. import expr as X
     from .. import exprsim
     from .c01 import enum_single, group_by_env
     pairs = []
-    src = list(enum_single(spec["maxw"])) if spec["which"] == "single" else list(padded_operand_exprs(spec["maxw"]))
+    src = list({"single": enum_single, "padded": padded_operand_exprs, "crossing": crossing_cat_exprs}[spec["which"]](spec["maxw"]))
     for env, e in src:
         try:
             X.ref_shape(e, [tuple(x) for x in env])
